@@ -127,6 +127,16 @@ class Beam(_Simu):
 
     useTimoshenko: bool = _params.BoolParameter()
 
+    @_Simu.mesh.setter  # type: ignore [attr-defined]
+    def mesh(self, mesh: "Mesh"):
+        # a mesh assigned later needs the same beam elements as the one given to the constructor
+        if hasattr(mesh, "dict_groupElem"):
+            if self.useTimoshenko:
+                mesh = _Construct_Timoshenko_mesh(mesh)
+            else:
+                mesh = _Construct_Euler_Bernoulli_mesh(mesh)
+        _Simu.mesh.fset(self, mesh)  # type: ignore [attr-defined]
+
     def Results_nodeFields_elementFields(
         self, details=False
     ) -> tuple[list[str], list[str]]:
